@@ -168,9 +168,23 @@ func (m *omap) len() int {
 type omapIter struct {
 	m *omap
 	i int
+	// order, when non-nil, is the visiting order chosen for this iteration (indices into m.entries): the Go
+	// specification leaves the iteration order of a map unspecified, so a harness that sets the parameter
+	// `maporder` gets every rotation of the insertion order as a separate path (see rangeIter)
+	order []int
 }
 
 func (it *omapIter) next() tuple {
+	if it.order != nil {
+		for it.i < len(it.order) {
+			e := it.m.entries[it.order[it.i]]
+			it.i++
+			if !e.deleted {
+				return []value{true, e.key, e.val}
+			}
+		}
+		return []value{false, nil, nil}
+	}
 	if it.m != nil {
 		for it.i < len(it.m.entries) {
 			e := it.m.entries[it.i]
